@@ -92,7 +92,8 @@ fn e1_main(a: &Args) -> i32 {
     let out_path = a.str("out", "/dev/stdout");
     let replay_dir = a.str("replay-dir", ".");
     let det_every = a.u64("determinism-every", 0);
-    let max_shrunk = a.u64("max-shrunk", 4);
+    let max_shrunk = a.u64("max-shrunk", 3);
+    let max_violations = a.u64("max-violations", 6) as usize;
     let started = Instant::now();
 
     save_diag_fd();
@@ -122,7 +123,7 @@ fn e1_main(a: &Args) -> i32 {
     let mut hashes: BTreeMap<String, String> = BTreeMap::new();
 
     let mut i = first + worker;
-    while runs < max_runs && (started.elapsed().as_secs_f64() < seconds || runs == 0) {
+    while runs < max_runs && (started.elapsed().as_secs_f64() < seconds || runs == 0) && violations.len() < max_violations {
         let run_seed = prng::mix(seed, &[tier_id(&tier), 1, i]);
         let t0 = Instant::now();
         let run = e1::gen_run(run_seed, &params, &corpus, &mut oracle);
@@ -342,7 +343,7 @@ fn replay_main(a: &Args) -> i32 {
             found.extend(rep.violations.iter().cloned());
             // oracle-level violations are re-derived from the recorded operation
             if let Some(t) = &target {
-                if t.class == "log-is-not-identity-plus-one-line" || t.class == "isolated-result-not-stable" {
+                if t.needs == "input-only" && t.property == "C17" {
                     found.extend(e1::recheck_oracle_level(t, &mut oracle));
                 }
             }
